@@ -46,6 +46,17 @@ def _cdrfile_common(ctx, res, replay_ops, want_spec):
                 res.violation("oracle", "%s: a well-formed file written while other goroutines write theirs differs from the file written alone" %
                               ("C15" if want_spec else "C14"), [op, "# impl:  " + im[:600], "# model: " + mo[:600]])
             continue
+        if kind == "big":
+            # well-formed files of up to 2100 records x 65535 octets (beyond 2^24 octets): written, read back, compared
+            res.evaluations += 1
+            res.dist["large-file:%s-records" % t[2]] += 1
+            res.traces_validated += 1
+            res.nontrivial.add(op)
+            if im != mo:
+                res.violation("roundtrip", "%s: a well-formed file of %s records of %s octets did not come back from Decoding(Encoding(f)) as it was, "
+                              "or has another length than the format prescribes" % ("C15" if want_spec else "C14", t[2], t[3]),
+                              [op, "# impl:  " + im[:300], "# model: " + mo[:300]])
+            continue
         if kind != "rt":
             # outside the property's domain (non-well-formed structures, damaged files):
             # model fidelity is reported, it does not decide the property
@@ -1123,13 +1134,14 @@ def explore_c20(ctx, res, replay_ops=None):
         if im not in ("started", "crash", "rejected"):
             res.violation("oracle", "C20: unexpected outcome " + im, [op])
         # invalid ones must be rejected
-        bad = t[3] not in ("http", "https") or t[4] != "ok"
+        bad = t[3] not in ("http", "https") or not t[4].startswith("ok")
         if bad and im != "rejected":
             res.violation("oracle", "C20: configuration with scheme=%s services=%s was not rejected" % (t[3], t[4]), [op, "# impl: " + im])
     res.extra["exhaustive_subspace"] = "baseline, all single and all pairwise removals of 20 items x {http, https}" + (
         ", all triples" if ctx.tier == "thorough" else "")
     res.rule = ("YAML configurations derived from a valid baseline by removing subsets of 20 items (sections, TLS blocks, mandatory "
-                "scalars) and altering scheme (http/https/ftp/HTTP/absent) and serviceNameList (valid/unknown/empty); each is read by "
+                "scalars) and altering scheme (http/https/ftp/HTTP/absent) and serviceNameList (one/two/all three known names, a known name "
+                "twice, unknown names, empty); each is read by "
                 "factory.ReadConfig in its own process and, if accepted, the context, rating and account servers, the application "
                 "(SBI server) and the SBI listener are started; a panic in any goroutine kills the child = crash; distinct = variants")
 
@@ -1579,6 +1591,12 @@ def explore_c11(ctx, res, replay_ops=None):
                           [op, "# impl: " + im])
         elif fu[:1] == "5" or fu2[:1] == "5":
             res.violation("oracle", "C11: the follow-up request was answered %s/%s" % (fu, fu2), [op, "# impl: " + im])
+        fu3 = d.get("fu3", "-")
+        if fu3 != "-":
+            res.dist["accepted-raw-create-followed-up"] += 1
+            if "hang" in fu3 or any(x[:1] == "5" for x in fu3.split("/")):
+                res.violation("oracle", "C11: the session opened by the (accepted) raw create was then updated and released with the same body: answered %s" % fu3,
+                              [op, "# impl: " + im])
     # --- long sessions: requests that cross the 65535-octet record limit (the record is split), among them one that is also the
     #     session's first online report with a trigger (a partial record is cut by the same request)
     if replay_ops is None or any(o.startswith("cdrsize ") for o in replay_ops):
